@@ -914,6 +914,8 @@ func TestC13Regress(t *testing.T) {
 			checkMarshalPkgStanza(t, s, true)
 		}
 	})
+	// finding class 3 (seeded): state shared between encodings
+	sub("readers-prepared-before-writing", func(t *testing.T) { regressIndependence(t) })
 	// neighbours
 	sub("stanza-special-fields", func(t *testing.T) {
 		for _, k := range kinds {
